@@ -51,6 +51,31 @@ ClockOk3(c) == /\ Len(c) = 3 /\ \A i \in 1..3 : TsOk(c[i])
                /\ Le(c[1], c[2]) /\ Le(c[2], c[3])
 ClockOk(r) == ClockOk3(r.mono) /\ ClockOk3(r.real)
 
+\* ---- the REAL initial stack of the run (dumped by the launcher from the stopped process) read with
+\* the definitional operators: argc/argv/envp/auxv words, pointers rewritten to indices of the dump
+HasStack(r) == Len(r.st) > 0
+StackOk(r) ==
+    HasStack(r) =>
+        LET envb == S!EnvBlock(r.st, r.heap)
+            rnd == S!Aux(r.st, 25)
+            fnp == S!Aux(r.st, 31)
+        IN /\ S!Args(r.st, r.heap) = r.args_os
+           /\ \A i \in 1..Len(r.look) : r.look[i].varu \in {AsRes(x) : x \in S!LookupAdmissible(envb, r.look[i].key)}
+           /\ S!Aux(r.st, 11) = r.aux.uid /\ S!Aux(r.st, 13) = r.aux.gid
+           /\ rnd # 0 /\ SubSeq(r.heap, rnd, rnd + 15) = r.aux.random
+           /\ fnp # 0 /\ S!CStr(r.heap, fnp) = r.aux.execfn
+\* /proc/<pid>/environ, cmdline and auxv describe the same picture (harness consistency)
+StackHarnessOk(r) == HasStack(r) => /\ S!EnvBlock(r.st, r.heap) = r.kenv
+                                    /\ S!Args(r.st, r.heap) = r.kargv
+                                    /\ S!Aux(r.st, 11) = r.kaux.uid
+
+\* ---- the probe's pointer tables (words that need a RELATIVE relocation in the PIE link modes):
+\* "ro0".."ro7" (.data.rel.ro), "rw0".."rw7" (.data), "la0".."la3" (behind .bss: the last relocations)
+ExpectedReloc == [i \in 1..20 |-> IF i <= 8 THEN <<114, 111, 47 + i>>
+                                  ELSE IF i <= 16 THEN <<114, 119, 47 + i - 8>>
+                                  ELSE <<108, 97, 47 + i - 16>>]
+RelocOk(r) == r.reloc = ExpectedReloc
+
 \* the harness did what it was asked to (not part of the verdict: a failure here is a tool error)
 HarnessOk(r) == /\ r.kargv = (IF r.argv = <<>> THEN << <<>> >> ELSE r.argv)
                 /\ r.kenv = r.env
@@ -59,12 +84,13 @@ Clauses(r) ==
     IF r.status # "exit0" THEN {"status"}
     ELSE (IF ArgsOk(r) THEN {} ELSE {"args"}) \cup (IF BadLook(r) = {} THEN {} ELSE {"lookup"})
          \cup (IF AuxOk(r) THEN {} ELSE {"aux"}) \cup (IF ClockOk(r) THEN {} ELSE {"clock"})
+         \cup (IF StackOk(r) THEN {} ELSE {"stack"}) \cup (IF RelocOk(r) THEN {} ELSE {"reloc"})
 \* one pass: a verdict per record, then the rejected ones (SelectSeq) - linear in the trace
 Verdict(i) == LET r == Rec[i]
                   ok == r.status = "exit0"
               IN [i |-> i, c |-> SetToSeq(Clauses(r)),
                   keys |-> IF ok THEN SetToSeq(BadLook(r)) ELSE <<>>,
-                  h |-> ~ok \/ HarnessOk(r)]
+                  h |-> ~ok \/ (HarnessOk(r) /\ StackHarnessOk(r))]
 All == [i \in 1..Len(Rec) |-> Verdict(i)]
 ASSUME PrintT(<<"JUDGED", ToJson([n |-> Len(Rec),
                                   bad |-> SelectSeq(All, LAMBDA v : v.c # <<>>),
